@@ -265,6 +265,13 @@ impl<'a> Explorer<'a> {
             (got_err, obs)
         });
         self.stats.case_done(1);
+        self.stats.outcome(match op {
+            Op::Add(..) => "op:add_content",
+            Op::AddFile(i) if disk_content(i).is_some() => "op:add_file(readable)",
+            Op::AddFile(_) => "op:add_file(failing)",
+            Op::Remove(_) => "op:remove_content",
+            Op::Validate => "op:validate",
+        });
         let fail = |msg: String| {
             self.stats.violation(Violation {
                 case: history_case(&hist),
